@@ -1539,7 +1539,11 @@ def fam_gees(E, c):
     sel, selname = _pick_select(E, rng, ev, tc)
     if sel is not None:
         E.ctx.count("select.used")
-        kw["select"] = (lambda s: bool(sel(s)))
+        # the manual: "select ... returns True or False"; integers 0/1 are what the C call-back conversion documents
+        # ("must return an integer") - both forms are in use
+        _rt = rng.choice(["bool", "int"])
+        E.ctx.count("select.returns-" + _rt)
+        kw["select"] = (lambda s: bool(sel(s))) if _rt == "bool" else (lambda s: int(bool(sel(s))))
     kw.update(E.dims(mode, n=n)); kw.update(A.kw("ldA", "offsetA"))
     ok, sdim = call(c, "gees", [A], kw, mutable=n > 0, grow=["n"])
     if ok:
@@ -1677,7 +1681,9 @@ def fam_gges(E, c):
     if sel1 is not None:
         E.ctx.count("select.used")
         sel = lambda x, y: bool(sel1(x / y)) if y != 0 else False
-        kw["select"] = (lambda x, y: bool(sel(x, y)))
+        _rt = rng.choice(["bool", "int"])
+        E.ctx.count("select.returns-" + _rt)
+        kw["select"] = (lambda x, y: bool(sel(x, y))) if _rt == "bool" else (lambda x, y: int(bool(sel(x, y))))
     kw.update(E.dims(mode, n=n)); kw.update(A.kw("ldA", "offsetA")); kw.update(B.kw("ldB", "offsetB"))
     ok, sdim = call(c, "gges", [A, B], kw, mutable=n > 0, grow=["n"])
     if ok:
